@@ -9,7 +9,7 @@ from gen_script import Gen
 
 PROP = "C10"
 NEEDS = ["model/Ebnf.v", "model/Lexer.v", "model/Viable.v", "gen/G4Data.v", "proofs/EbnfP.v", "proofs/LexerP.v", "proofs/LrecP.v",
-         "proofs/ViableP.v", "proofs/GrammarP.v", "extract/Extract.v"]
+         "proofs/ViableP.v", "proofs/GrammarP.v", "gen/Facts.v", "proofs/FactsP.v", "extract/Extract.v"]
 SYN = re.compile(r"Blackbird SyntaxError \(line (\d+):(\d+)\)")
 
 
@@ -117,7 +117,7 @@ def run(tier, seed):
     res = Result(PROP, tier, seed)
     rng = random.Random(seed)
     status = fw.build()
-    proof_obligations(res, status, "props/C10.v", NEEDS, translators=("g4_to_coq",))
+    proof_obligations(res, status, "props/C10.v", NEEDS, translators=("g4_to_coq", "facts_from_py"))
     quick = tier == "quick"
     if status.bbmodel_ok and "g4_to_coq" not in status.translator_errors:
         import impl
